@@ -210,6 +210,13 @@ class SymInt(_SymMixin, int):
         return self  # int(x) of a symbolic integer stays symbolic
 
 
+class Raised:
+    """Result of a path on which the function under analysis raised an exception."""
+
+    def __init__(self, exc):
+        self.exc = exc
+
+
 def explore(fn, assumptions=(), max_paths=200):
     """Run fn() along every feasible path.  fn builds its symbolic inputs itself.
     Yields (path_condition list, result, run)."""
@@ -225,6 +232,10 @@ def explore(fn, assumptions=(), max_paths=200):
         CUR = run
         try:
             res = fn()
+        except Unsupported:
+            raise
+        except Exception as e:  # the function under analysis raised on this (feasible) path
+            res = Raised(e)
         finally:
             CUR = None
         work.extend(run.forks)
